@@ -192,4 +192,26 @@ PROPS = {
         assumptions=COMMON_ASSUME,
         floors=dict(quick={'distinct_nontrivial': 3000, 'equality_pairs': 50000, 'feat:c14_relations': 12}, thorough={'distinct_nontrivial': 3000}),
     ),
+
+    'C15': dict(
+        technique='ASan+UBSan run of Decoder::decode and TECMP::Decoder::Decode on wire-model TECMP frames; packets compared with an independent TECMP parse; unsupported / non-fitting messages must yield nothing',
+        level_text='Exploration with exhaustive type sweeps: all 256 message types x 10 data types x 3 bodies, all 65536 data types on a data message, CAN 0..8 / CAN-FD 0..64 / LIN 0..8 data bytes x 0..3 CRC / checksum bytes x inner length byte fits -1/0/+1/+2/+200, bus status 0..40 entries (with incomplete tails, declared length +1 / 0), capture module status cut at every length, plus seeded random frames with arbitrary header fields; through both entry points. Expected packets come from an independent big-endian parse.',
+        level_note='Trusted: TECMP layout in wire.h (device id = byte 1 as the library defines its 28-byte header; chassis/silicon temperature offsets corroborated only by the captured frame in the repository tests). Leniencies: class CAN vs CAN-FD not compared; status messages with non-zero data type, data lengths beyond the bus limit and incomplete trailing bus entries run under the weaker oracle "nothing or correct"; bytes beyond 28 + payload length run under the safety oracle only.',
+        stages=[dict(driver='drv_tecmp', flavour='asan')],
+        rule='cases = TECMP frames; each frame through each of the two entry points is one evaluation; distinct_nontrivial = distinct (family, message type, data type, length class, CRC bytes, inner length delta) signatures.',
+        assumptions=COMMON_ASSUME,
+        floors=dict(quick=dict(distinct_nontrivial=60000, converted_and_compared=50000, expected_no_packet=50000, data_types_swept=65536, message_types_swept=256),
+                    thorough=dict(distinct_nontrivial=60000, data_types_swept=65536, message_types_swept=256)),
+    ),
+
+    'C16': dict(
+        technique='ASan+UBSan exhaustive depth-first execution of all operation sequences up to a bound on copies of the real Status object, every node compared with a reference latest-message map; plus long random sequences',
+        level_text='Bounded-exhaustive exploration by execution: all sequences of length <= 5 (quick; <= 6 thorough) over the 28 concrete operations {update(cm,d), update(if,d,i), update(data,d), removeDeviceById(d), removeInterfaceById(d,i), clear} on 3 devices x 3 interfaces (ids chosen to collide under 8/16-bit truncation) are executed on copies of the real object and after EVERY operation the full observable state (counts, every lookup incl. absent ids, every stored packet, interface ids) is compared with a per-device/per-interface latest-message map; random sequences of length 200 go beyond the bound.',
+        level_note='Trusted: the 40-line map model in drv_status.cpp; Status is copied at each node with its own copy constructor (a copy that differed from the original would itself be flagged by the comparison). Entry order is unspecified and not compared.',
+        stages=[dict(driver='drv_status', flavour='asan')],
+        rule='cases = two-operation prefixes (784) whose subtree is explored exhaustively + random sequences; every operation executed is one evaluation (one full state comparison). distinct_nontrivial = distinct (model state hash before, operation) transitions.',
+        assumptions=COMMON_ASSUME,
+        floors=dict(quick=dict(distinct_nontrivial=2000, dfs_prefixes_completed=784, dfs_nodes=17000000), thorough=dict(distinct_nontrivial=2000, dfs_prefixes_completed=784, dfs_nodes=400000000)),
+        coverage_static=dict(quick=dict(exhaustive_subspaces=['all 28^k operation sequences for k <= 5']), thorough=dict(exhaustive_subspaces=['all 28^k operation sequences for k <= 6'])),
+    ),
 }
